@@ -20,7 +20,7 @@ TRUSTED = [
     "json is trusted through three framing hypotheses (a document decodes whatever follows it; a proper prefix of a document does not decode; documents start with a non-blank and are separated by blanks); a concrete brace/string scanner that satisfies them on json.dump(indent=2) output is used for evaluation and is compared with json.raw_decode on every generated log",
 ]
 ASSUMPTIONS = [
-    "the terminal prefix is constant while an event is written (NESTING and ev.prefix do not change between writes)",
+    "the theorems about the terminal speak about a prefix that is constant while an event is written; changing nesting levels are covered by the model (ev_run_var) and its correspondence",
     "ASCII terminal (tbot.log.IS_UNICODE False, no colour) for the printed-text comparison",
 ]
 RULE = ("write sequences (texts with CR/LF, CRLF, terminal-control sequences, non-ASCII, empty strings; every way of splitting a text over 1-4 write calls for short texts, "
@@ -148,6 +148,87 @@ class EvioSuite(Suite):
         return ("printed" if case["ev_verb"] <= case["VERB"] else "silent") + f"/writes={min(len(case['writes']), 4)}"
 
 
+class EvioNestSuite(EvioSuite):
+    """the nesting level changes while the event is open (a testcase begins or ends between two writes): every line
+    gets the prefix in force when it starts to be printed"""
+    name = "evio_nest"
+    model_fn = "evio_var_model"
+
+    @staticmethod
+    def pfx(n, user):
+        return "" if n == -1 else "|   " * n + "| " + (user or "")
+
+    def coq_input(self, case):
+        enabled = case["ev_verb"] <= case["VERB"]
+        pws = coq.lst(lambda nw: f"({s2l(self.pfx(nw[0], case['prefix']))}, {s2l(nw[1])})", list(zip(case["nests"], case["writes"])), "(list N * list N)")
+        return f"({coq.boolean(enabled)}, {s2l(self.pfx(case['close_nest'], case['prefix']))}, {pws})"
+
+    def run(self, case):
+        saved = (tbot.log.VERBOSITY, tbot.log.NESTING, tbot.log.IS_UNICODE, tbot.log.IS_COLOR, tbot.log.LOGFILE)
+        out = io.StringIO()
+        try:
+            tbot.log.VERBOSITY = tbot.log.Verbosity(case["VERB"])
+            tbot.log.NESTING = case["nests"][0] if case["nests"] else case["close_nest"]
+            tbot.log.IS_UNICODE = False
+            tbot.log.IS_COLOR = False
+            tbot.log.LOGFILE = None
+            with contextlib.redirect_stdout(out):
+                ev = tbot.log.EventIO(["verif"], "header", verbosity=tbot.log.Verbosity(case["ev_verb"]))
+                if case["prefix"] is not None:
+                    ev.prefix = case["prefix"]
+                header_len = len(out.getvalue())
+                for n, w in zip(case["nests"], case["writes"]):
+                    tbot.log.NESTING = n
+                    ev.write(w)
+                stored = ev.getvalue()
+                tbot.log.NESTING = case["close_nest"]
+                ev.close()
+            printed = out.getvalue()[header_len:]
+            return [stored, printed, out.getvalue()[:header_len]]
+        finally:
+            (tbot.log.VERBOSITY, tbot.log.NESTING, tbot.log.IS_UNICODE, tbot.log.IS_COLOR, tbot.log.LOGFILE) = saved
+
+    def gen(self, tier, rng):
+        alpha = ["a", "b", "\n", "\n", "\r", " ", "é", "x"]
+        for _ in range(6000 if tier == "thorough" else 1200):
+            k = rng.randint(2, 5)
+            ws = ["".join(rng.choice(alpha) for _ in range(rng.randint(0, 6))) for _ in range(k)]
+            base = rng.choice([0, 1, 2])
+            nests = [max(0, base + rng.choice([0, 0, 1, -1, 2])) for _ in range(k)]
+            yield {"writes": ws, "nests": nests, "close_nest": rng.choice(nests + [base]), "ev_verb": rng.choice([1, 3, 4]), "VERB": rng.choice([3, 3, 4]),
+                   "prefix": rng.choice([None, None, "# "])}
+
+    def oracle(self, case, obs):
+        fails = []
+        stored, printed, header = obs
+        if case["ev_verb"] > case["VERB"]:
+            return [f"event above the verbosity level printed {header + printed!r}"] if (printed or header) else []
+        if stored != "".join(w.replace("\r\n", "\n").replace("\n\r", "\n") for w in case["writes"]):
+            fails.append(f"stored text {stored!r} is not the concatenation of the writes")
+        # every character once; at every line start the prefix in force while that write is printed
+        exp, nl, pos = "", True, 0
+        for n, w in zip(case["nests"], case["writes"]):
+            w = w.replace("\r\n", "\n").replace("\n\r", "\n")
+            for ch in w:
+                if nl:
+                    exp += self.pfx(n, case["prefix"])
+                    nl = False
+                if ch in "\r\n":
+                    nl = True
+                exp += ch
+        if not nl:
+            exp += "\n"
+        if printed != exp:
+            fails.append(f"terminal shows {printed!r}; with the prefix in force at each line start (nesting levels {case['nests']}) it should be {exp!r}")
+        return fails
+
+    def nontrivial(self, case, obs):
+        return len(set(case["nests"])) >= 2
+
+    def klass(self, case, obs):
+        return ("printed" if case["ev_verb"] <= case["VERB"] else "silent") + f"/levels={len(set(case['nests']))}"
+
+
 def _payload(rng, size):
     alpha = ['"', "\\", "{", "}", "[", "]", " ", "\n", "\t", "\x01", "é", "€", "\ud83d", "a", "b", ":", ",", "  ", "\\n", '\\"']
     return "".join(rng.choice(alpha) for _ in range(size))
@@ -160,7 +241,7 @@ class LogfileSuite(Suite):
     shard = 60
 
     def coq_input(self, case):
-        text = self._file_text(case)
+        text, _ = self._file_text(case)
         return f"({case['read_size']}%nat, {s2l(text)})"
 
     def obs_term(self, case, obs):
@@ -168,7 +249,9 @@ class LogfileSuite(Suite):
 
     def _file_text(self, case):
         saved = (tbot.log.LOGFILE, tbot.log.VERBOSITY, tbot.log.START_TIME, tbot.log.time)
-        buf = io.StringIO()
+        raw_buf = io.BytesIO()
+        buf = io.TextIOWrapper(raw_buf, encoding="utf-8", newline="")      # what open(path, "w") gives under a UTF-8 locale
+        errs = []
 
         class FakeTime:
             t = 0.0
@@ -187,14 +270,18 @@ class LogfileSuite(Suite):
                     ev = tbot.log.EventIO(e["type"], "m", verbosity=tbot.log.Verbosity.CHANNEL, **e["data"])
                     evs.append(ev)
                 # close in the given order (closing order = file order)
-                for i in case["close_order"]:
-                    evs[i].close()
-            return buf.getvalue()
+                for n, i in enumerate(case["close_order"]):
+                    try:
+                        evs[i].close()
+                    except Exception as e:  # noqa
+                        errs.append(f"closing event {n} raised {type(e).__name__}: {str(e)[:80]}")
+            buf.flush()
+            return raw_buf.getvalue().decode("utf-8", "replace"), errs
         finally:
             tbot.log.LOGFILE, tbot.log.VERBOSITY, tbot.log.START_TIME, tbot.log.time = saved
 
     def run(self, case):
-        text = self._file_text(case)
+        text, errs = self._file_text(case)
         d = tempfile.mkdtemp(prefix="tv_c17_")
         path = os.path.join(d, "log.json")
         try:
@@ -208,7 +295,7 @@ class LogfileSuite(Suite):
                 logparser.READ_SIZE = saved
             raw = [json.dumps({"type": p.type, "time": p.time, "data": p.data}, indent=2) for p in parsed]
             back = [[p.type, p.data] for p in parsed]
-            return [raw, back, len(text)]
+            return [raw, back, len(text), errs]
         finally:
             try:
                 os.remove(path); os.rmdir(d)
@@ -233,9 +320,9 @@ class LogfileSuite(Suite):
             yield {"events": events, "close_order": order, "read_size": rs}
 
     def oracle(self, case, obs):
-        raw, back, _ = obs
+        raw, back, _, errs = obs
         want = [[case["events"][i]["type"], case["events"][i]["data"]] for i in case["close_order"]]
-        fails = []
+        fails = [e + " (the event is not in the log file)" for e in errs]
         if len(back) != len(want):
             fails.append(f"log parser yielded {len(back)} events, {len(want)} were closed")
         else:
@@ -260,4 +347,4 @@ class LogfileBigSuite(LogfileSuite):
     BIG = True
 
 
-SUITES = [EvioSuite(), LogfileSuite(), LogfileBigSuite()]
+SUITES = [EvioSuite(), EvioNestSuite(), LogfileSuite(), LogfileBigSuite()]
